@@ -93,6 +93,36 @@ def run_bin(binary, args, timeout, cwd):
     return results, tail, None
 
 
+def annotate(plan):
+    """Adds a readable rendition of every payload next to its base64 form (ignored on replay)."""
+    import base64
+    for op in plan.get("ops") or []:
+        for k in ("data", "body"):
+            if isinstance(op.get(k), str) and op[k]:
+                try:
+                    raw = base64.b64decode(op[k], validate=True)
+                except Exception:
+                    continue
+                op["_" + k + "_text"] = "".join(chr(b) if 32 <= b < 127 or b == 10 else "\\x%02x" % b for b in raw.replace(b"\r\n", b"\n")).split("\n")
+
+
+def write_trace(binary, scratch, path):
+    """The minimised run once more with the kernel's step trace on: every scheduling decision (which goroutine ran,
+    out of how many runnable), every delivery, fault and emission with its simulated time. Human-readable companion
+    of the replay file; the replay file alone reproduces the run."""
+    try:
+        env = dict(ENV, GORACE="halt_on_error=0 history_size=7 log_path=" + os.path.join(scratch, "race"))
+        r = subprocess.run([binary, "-test.run", "TestSim", "-test.timeout", "0", "-sim.replay", path, "-sim.trace"], env=env, capture_output=True, timeout=120, cwd=scratch)
+        lines = [l for l in r.stderr.decode("utf8", "replace").split("\n") if re.match(r"^\d+ ", l)]
+        if len(lines) > 40000:
+            lines = lines[:20000] + ["... %d lines left out ..." % (len(lines) - 40000)] + lines[-20000:]
+        with open(path[:-5] + ".trace.txt", "w") as f:
+            f.write("# step simulated-time what   (run <goroutine> <operation> (of <runnable>): a scheduling decision; event: a delivery or timer; net/emit: what the simulated network saw)\n")
+            f.write("\n".join(lines) + "\n")
+    except Exception as ex:
+        log("trace not written: %s" % ex)
+
+
 def load_known():
     p = os.path.join(V, "known_findings.json")
     if not os.path.exists(p):
@@ -405,7 +435,9 @@ def run_check(a, prop, tier, seed, spec, scratch, t_start):
         os.makedirs(rdir, exist_ok=True)
         name = "%s-%s-%s.json" % (prop, re.sub(r"[^A-Za-z0-9]+", "-", rule), r["seed"])
         path = os.path.join(rdir, name)
+        annotate(small)
         json.dump(small, open(path, "w"))
+        write_trace(binary, scratch, path)
         replay_files.append(path)
         out_lines.append("violation: property=%s rule=%s sig=%s seed=%s ops=%d->%d tape=%d->%d (%d runs hit it)\n  %s" % (
             prop, rule, sig, r["seed"], len(plan.get("ops") or []), len(small.get("ops") or []), len(plan.get("tape") or []), len(small.get("tape") or []), len(items), detail.replace("\n", "\n  ")[:1500]))
